@@ -250,6 +250,21 @@ def run(R):
         with cli.Sandbox(tree + [{"p": ".gitignore", "k": "f", "c": b"target/\n", "m": 0o644}]) as sb:
             run_cmd(sb, ["plan", s, t, "--dry-run", "--output", "json"], "PlanResult.json", "plan (auto-init)", plan_required=True, globals_=("-y",))
             run_cmd(sb, ["search", s, "--output", "json"], "PlanResult.json", "search (auto-init repo)", plan_required=True, globals_=("--auto-init", "repo", "-y"))
+        # inside a git repository with --commit: the child git processes must not write to renamify's standard output
+        with cli.Sandbox(tree) as sb:
+            import subprocess as sp
+            genv = dict(core.ENV, HOME=str(sb.dir), GIT_CONFIG_GLOBAL="/dev/null", GIT_CONFIG_NOSYSTEM="1")
+            ok_git = True
+            for cmd in (["git", "init", "-q"], ["git", "config", "user.email", "t@example.com"], ["git", "config", "user.name", "t"],
+                        ["git", "config", "commit.gpgsign", "false"], ["git", "add", "-A"], ["git", "commit", "-q", "-m", "initial"]):
+                ok_git = ok_git and sp.run(cmd, cwd=str(sb.root), env=genv, stdout=sp.DEVNULL, stderr=sp.DEVNULL).returncode == 0
+            if ok_git:
+                stats["git_commit_runs"] = stats.get("git_commit_runs", 0) + 1
+                run_cmd(sb, ["rename", s, t, "--commit", "--output", "json"], "RenameResult.json", "rename --commit", plan_required=True)
+                run_cmd(sb, ["plan", t, s, "--output", "json"], "PlanResult.json", "plan", plan_required=True)
+                run_cmd(sb, ["apply", "--commit", "--output", "json"], "ApplyResult.json", "apply --commit")
+                w0 = s.split("_")[0]
+                run_cmd(sb, ["replace", "--no-regex", w0, w0 + "k", "--commit", "--output", "json"], "Plan", "replace --commit")
         # conflicting renames -> exit 1
         with cli.Sandbox(tree + [{"p": t + "_dir", "k": "d", "m": 0o755}]) as sb:
             run_cmd(sb, ["rename", s, t, "--output", "json"], "RenameResult.json", "rename (occupied destination)", expect_fail=True)
